@@ -408,6 +408,14 @@ partial def loop (wt : WidthTable) (h : IO.FS.Stream) (d : DState) : IO Unit := 
       | "resize" => some (.resize a.toNat! b.toNat!)
       | _ => none
     let o ← IO.getStdout
+    if op = "text" then
+      -- a stretch of printable text arriving in one read: runs cut by the reader, written by `writeString`
+      let s' := s.feedText wt.lookup ((bytesOfHex a).getD [])
+      let rowsOut := "|".intercalate (s'.lines.map fun l => toString l.width ++ ":" ++ spansStr l.spans)
+      o.putStrLn s!"{s'.w} {s'.h} {s'.cx} {s'.cy} {s'.sx} {s'.sy} {s'.top} {s'.bot} {b01 s'.wrap} {b01 (s.inv wt.lookup)} {b01 (s'.inv wt.lookup)} 1 {if rowsOut.isEmpty then "-" else rowsOut}"
+      o.flush
+      loop wt h d
+    else
     (match sop with
      | none => o.putStrLn "bad-op"
      | some sp =>
